@@ -30,7 +30,9 @@ Op == /\ Ev.ev = "op"
       /\ drawn' = drawn \cup ToSet(Ev.ids)
       /\ last' = [last EXCEPT ![Ev.t] = Ev.seq]
       /\ UNCHANGED <<expect, ended, nthreads, nops>>
-End == /\ Ev.ev = "end" /\ Ev.t \notin ended /\ last[Ev.t] = nops /\ Ev.count = nops
+\* every thread ends with one extra operation: the "storm", in which all threads run the C hashing jets on
+\* different buffers at the same time
+End == /\ Ev.ev = "end" /\ Ev.t \notin ended /\ last[Ev.t] = nops + 1 /\ Ev.count = nops + 1
        /\ ended' = ended \cup {Ev.t}
        /\ UNCHANGED <<expect, drawn, last, nthreads, nops>>
 Joined == /\ Ev.ev = "joined" /\ Cardinality(ended) = nthreads          \* Terminates
